@@ -48,10 +48,10 @@ ASSUMPTIONS = ["real arithmetic (no rounding): theorems over R; the exact stream
 
 TOL = Fraction(1, 10 ** 9)
 MARGIN = Fraction(1, 10 ** 6)
-SKIPPED = {"inband": 0}
+SKIPPED = {"inband": 0, "redrawn": 0}
 
 def extra_evidence():
-    return {"skipped_in_band": SKIPPED["inband"]}
+    return {"skipped_in_band": SKIPPED["inband"], "redrawn_in_band_by_generator": SKIPPED["redrawn"]}
 
 # ----------------------------------------------------------------------------- helpers
 def F(x): return Fraction(x)
@@ -99,7 +99,8 @@ def rand_coord(rng, n, s, o, exact, flip):
     if rng.random() < 0.12: lo, hi = lo - float(s), hi + float(s)
     for _ in range(50):
         v = Fraction(float(round(rng.uniform(lo, hi), 3)))
-        if in_margin(pixel_pos(n, s, o, v, flip)): continue
+        if in_margin(pixel_pos(n, s, o, v, flip)):
+            SKIPPED["redrawn"] += 1; continue
         return v
     return Fraction(float(o))
 
@@ -274,6 +275,7 @@ def gen_mask_cases(rng, exact, kinds):
                 inp = dict(base, op=kind, ell=[one()] if kind == "ell" else [one(), one()])
             if not mask_case_inband(inp):
                 yield inp; break
+            SKIPPED["redrawn"] += 1
 
 def gen_all_shapes(rng, nmax):
     """every shape up to nmax x nmax, every pixel: centre grid, and each centre back to its index / flat index"""
